@@ -8,7 +8,7 @@ From K.Model Require Export C19.
 Import ListNotations.
 
 Record case := mkcase {
-  k_tab : list (nat * (nat * N));            (* payload id |-> (length, CRC-32) *)
+  k_tab : list (nat * (N * N));              (* payload id |-> (length, CRC-32) *)
   k_cfg : cfg nat;                           (* blob = [0; ...; n-1], metainfo sums, limits *)
   k_peers : list (kind * bool * list nat);   (* kind, origin flag, pieces verified at the start *)
   k_trace : list (label nat);                (* the label sequence that explains the observed events *)
@@ -17,12 +17,12 @@ Record case := mkcase {
   k_obs : list (pobs nat);                   (* per peer: result, final verified set, cache *)
   k_expect : bool }.                         (* fault-free swarm: must converge *)
 
-Fixpoint lookup (t : list (nat * (nat * N))) (b : nat) : nat * N :=
+Fixpoint lookup (t : list (nat * (N * N))) (b : nat) : N * N :=
   match t with
-  | [] => (0, 0%N)
+  | [] => (0%N, 0%N)
   | (k, v) :: r => if Nat.eqb k b then v else lookup r b
   end.
-Definition plen_of (c : case) (b : nat) : nat := fst (lookup (k_tab c) b).
+Definition plen_of (c : case) (b : nat) : N := fst (lookup (k_tab c) b).
 Definition sum_of (c : case) (b : nat) : N := snd (lookup (k_tab c) b).
 
 Fixpoint idx_filter (f : case -> bool) (i : N) (cs : list case) : list N :=
